@@ -1336,7 +1336,7 @@ var ruleFreshResults = &core.Rule{ID: "R06.7", Min: 3,
 				continue // Lookup, Parent: hand out shared nodes by design; their fields are write-once (R06.3)
 			}
 			for _, r := range core.Returns(f) {
-				v := spilled(r, 0)
+				v := viaResultHelper(spilled(r, 0))
 				key := fmt.Sprintf("%s: %s", core.FName(f), returnOrdinal(r))
 				o := m.org(v, 0)
 				if isFresh(o) {
